@@ -275,6 +275,9 @@ def fe_hook_full(fn, args, kwargs):
                 return XFe((1, 1) + value.shape, value.data)
             if value.ndim >= 2 and value.shape[:2] == (1, 1):
                 return XFe.of(value)
+            ne, npg = (int(args[1]), int(args[2])) if len(args) > 2 else (None, None)
+            if ne is not None and value.ndim >= 2 and value.shape[:2] == (ne, npg):
+                return XFe.of(value)  # a full (Ne, nPg, ...) field
             raise AnalysisError("FeArray.broadcast of this shape is not modelled")
     if isinstance(fn, _NpAttr) and fn.path == "asarray" and args and isinstance(args[0], XFe):
         a = args[0]
